@@ -30,9 +30,11 @@ FormulaText == << "v", "0 + v", "v + w", "0 + v:w", "w + w:v" >>
 
 \* data: text/categorical values are given unsorted, the declared order of a categorical dtype is NOT the sorted one;
 \* numeric values are small non-negative integers (bool: 0/1)
-CatVals == <<"m", "k", "m", "z", "k">>
-SortedLv == <<"k", "m", "z">>
-DeclaredLv == <<"z", "k", "m", "u">>             \* "u" is declared but unobserved
+\* value set "falsy": the level that sorts / is declared first is the empty string (a level like any other)
+VARIABLE vset
+CatVals == IF vset = "falsy" THEN <<"m", "", "m", "z", "">> ELSE <<"m", "k", "m", "z", "k">>
+SortedLv == IF vset = "falsy" THEN <<"", "m", "z">> ELSE <<"k", "m", "z">>
+DeclaredLv == IF vset = "falsy" THEN <<"", "z", "m", "u">> ELSE <<"z", "k", "m", "u">>             \* "u" is declared but unobserved
 NumVals(tag) == IF tag \in {"bool", "boolean"} THEN <<1, 0, 1, 1, 0>> ELSE <<3, 0, 2, 7, 1>>
 WVals == <<2, 5, 3, 1, 4>>
 Frame(tag, nulls) ==
@@ -43,7 +45,7 @@ Frame(tag, nulls) ==
           ELSE [kind |-> "num", num |-> NumVals(tag), cat |-> <<>>, nulls |-> nulls, lv |-> <<>>, declared |-> FALSE]]]
 
 VARIABLES tag, fid, nulls, fullrank
-vars == <<tag, fid, nulls, fullrank>>
+vars == <<tag, fid, nulls, fullrank, vset>>
 Form == Formulas(tag)[fid]
 Fr == Frame(tag, nulls)
 Drop == M!DropSet(Fr, <<Form>>, "drop", {})
@@ -55,10 +57,10 @@ DummyCoded == KindOf(tag) = "cat" => \A j \in DOMAIN M!Names(B0) : M!Names(B0)[j
 
 Out == IOEnv.OUT_FILE
 EmitCase == Emit => CSVWrite("%1$s", <<ToJson([tag |-> tag, kind |-> KindOf(tag), declared |-> Declared(tag), formula |-> FormulaText[fid],
-      nulls |-> SetToSortSeq(nulls, <), full_rank |-> fullrank, kept |-> KeptRows,
+      nulls |-> SetToSortSeq(nulls, <), full_rank |-> fullrank, vset |-> vset, kept |-> KeptRows,
       catvals |-> CatVals, declared_levels |-> DeclaredLv, numvals |-> NumVals(tag), wvals |-> WVals,
       names |-> M!Names(B0), cells |-> M!Cells(B0, Len(KeptRows))])>>, Out)
-Init == tag \in Tags /\ fid \in 1..5 /\ nulls \in {{}, {2}} /\ fullrank \in BOOLEAN
+Init == tag \in Tags /\ fid \in 1..5 /\ nulls \in {{}, {2}} /\ fullrank \in BOOLEAN /\ vset \in (IF KindOf(tag) = "cat" THEN {"plain", "falsy"} ELSE {"plain"})
 Next == UNCHANGED vars
 Spec == Init /\ [][Next]_vars
 =============================================================================
